@@ -341,6 +341,17 @@ class Table:
                 k = int(args[1].const())
                 hi, lo = (k + 1, k) if k >= 0 else (k, k - 1)
                 return self.atom('idx', (x, self.const(hi))) - self.atom('idx', (x, self.const(lo)))
+        if head == 'elem' and len(args) == 2 and isinstance(args[0], RF) and args[0].single_atom() is None and \
+                args[0].atoms() and args[0].const() is None and not getattr(self, '_in_elem', False):
+            # iterating over element-wise arithmetic: the i-th item of (a + b/2) is a_i + b_i/2, exactly as for an
+            # explicit index (Conv.subscript)
+            i_ = args[1]
+
+            def pick_(a, at, nargs):
+                if at.head == 'name' and ((at.args[0].isupper() and len(at.args[0]) >= 3) or at.args[0] == 'pi'):
+                    return RF(self, p_atom(a))
+                return self.atom('elem', (RF(self, p_atom(a)), i_))
+            return self.rewrite(args[0], pick_, _memo=None)
         if head == 'elem' and len(args) == 2 and isinstance(args[0], RF):
             # the i-th item of zip(a, b) is (a_i, b_i); of enumerate(a) it is (i, a_i)
             za = args[0].single_atom()
@@ -777,7 +788,7 @@ class Conv:
             v = self.expr(n.value)
             self.env[n.target.id] = v
             return v
-        if isinstance(n, (ast.ListComp, ast.GeneratorExp, ast.SetComp)):
+        if isinstance(n, (ast.ListComp, ast.GeneratorExp, ast.SetComp, ast.DictComp)):
             r = self._comp(n)
             if r is not None:
                 return r
@@ -841,10 +852,39 @@ class Conv:
             if isinstance(x, (ast.Tuple, ast.List)):
                 return '(' + ','.join(shape(e) for e in x.elts) + ')'
             raise ValueError
-        for g in n.generators:
+        # a list comprehension over a literal sequence is the literal of its items: [f(x) for x in (a, b)] is [f(a), f(b)]
+        if isinstance(n, ast.ListComp) and len(n.generators) == 1 and not n.generators[0].ifs and \
+                not n.generators[0].is_async and isinstance(n.generators[0].target, ast.Name):
+            it0 = self._iterand(self.expr(n.generators[0].iter))
+            a0 = it0.single_atom()
+            if a0 is not None and t.atoms[a0].head == 'tuple' and all(isinstance(x, RF) for x in t.atoms[a0].args):
+                items = []
+                for x in t.atoms[a0].args:
+                    c2 = self.fork()
+                    c2.env[n.generators[0].target.id] = x
+                    items.append(c2.expr(n.elt))
+                return t.atom('tuple', tuple(items))
+        gens = list(n.generators)
+        for gi, g in enumerate(gens):
+            # `for i, x in enumerate(S)` with x unused is `for i in range(len(S))`
+            if isinstance(g.iter, ast.Call) and isinstance(g.iter.func, ast.Name) and g.iter.func.id == 'enumerate' and \
+                    len(g.iter.args) == 1 and not g.iter.keywords and isinstance(g.target, ast.Tuple) and \
+                    len(g.target.elts) == 2 and all(isinstance(e, ast.Name) for e in g.target.elts):
+                unused = g.target.elts[1].id
+                rest = [n.elt] if not isinstance(n, ast.DictComp) else [n.key, n.value]
+                rest += list(g.ifs) + [x for g2 in gens[gi + 1:] for x in [g2.iter] + list(g2.ifs)]
+                if not any(isinstance(x, ast.Name) and x.id == unused for r_ in rest for x in ast.walk(r_)):
+                    g2 = ast.comprehension(target=g.target.elts[0], iter=ast.Call(
+                        func=ast.Name(id='range', ctx=ast.Load()), args=[ast.Call(
+                            func=ast.Name(id='len', ctx=ast.Load()), args=[g.iter.args[0]], keywords=[])], keywords=[]),
+                        ifs=g.ifs, is_async=0)
+                    ast.copy_location(g2, g.target)
+                    ast.fix_missing_locations(g2)
+                    gens[gi] = g2
+        for g in gens:
             if g.is_async:
                 return None
-            it = c.expr(g.iter)
+            it = self._iterand(c.expr(g.iter))
             try:
                 shapes.append(shape(g.target))
             except ValueError:
@@ -853,7 +893,22 @@ class Conv:
             parts.append(it)
             parts.append(t.atom('tuple', tuple(c.expr(x) for x in g.ifs)))
         c._bd = k
-        return t.atom('comp', (c.expr(n.elt),) + tuple(parts), extra=(type(n).__name__,) + tuple(shapes), node=n)
+        if isinstance(n, ast.DictComp):
+            elt = t.atom('tuple', (c.expr(n.key), c.expr(n.value)))
+        else:
+            elt = c.expr(n.elt)
+        return t.atom('comp', (elt,) + tuple(parts), extra=(type(n).__name__,) + tuple(shapes), node=n)
+
+    def _iterand(self, it):
+        """what a loop over `it` visits: list(x) / tuple(x) visit the items of x"""
+        t = self.tab
+        while True:
+            a = it.single_atom()
+            if a is not None and t.atoms[a].head == 'call' and t.atoms[a].extra in (('fn:list',), ('fn:tuple',)) and \
+                    len(t.atoms[a].args) == 1 and isinstance(t.atoms[a].args[0], RF):
+                it = t.atoms[a].args[0]
+                continue
+            return it
 
     def power(self, a, b):
         t = self.tab
@@ -961,7 +1016,17 @@ class Conv:
             if all(f == '' for f in fields) and len(fields) == len(n.args):
                 return t.atom('fmt', (tmpl,) + tuple(self.expr(a) for a in n.args))
         name, recv = self.call_name(n.func)
-        args = [self.expr(a) for a in n.args]
+        args = []
+        for a in n.args:
+            v = self.expr(a)
+            if isinstance(a, ast.Starred):
+                # f(*t) with t a tuple of known length is f(t0, t1, ...)
+                inner = self.expr(a.value)
+                ia = inner.single_atom()
+                if ia is not None and t.atoms[ia].head == 'tuple' and all(isinstance(x, RF) for x in t.atoms[ia].args):
+                    args.extend(t.atoms[ia].args)
+                    continue
+            args.append(v)
         kw = tuple(sorted(((k.arg or '**', self.expr(k.value))
                            for k in n.keywords), key=lambda kv: kv[0]))
         kwn = tuple(k for k, _ in kw)
@@ -1029,6 +1094,25 @@ class Conv:
                 return a_ - b_
             if b_.num:
                 return a_ / b_
+        if name in ('append', 'concatenate', 'hstack') and recv_rf is None and not kw and \
+                (len(args) == 2 if name == 'append' else len(args) == 1):
+            # np.append(a, b) joins a and b end to end, like np.concatenate((a, b)) / np.hstack((a, b)) for 1-D
+            # operands; in a join the one-element tail x[-1:] and the scalar x[-1] contribute the same single value
+            parts = None
+            if name == 'append':
+                parts = list(args)
+            else:
+                a0 = args[0].single_atom()
+                if a0 is not None and t.atoms[a0].head == 'tuple' and all(isinstance(x, RF) for x in t.atoms[a0].args):
+                    parts = list(t.atoms[a0].args)
+            if parts is not None:
+                def last1(a, at, nargs):
+                    if at.head == 'idx' and len(nargs) == 2 and isinstance(nargs[1], Slice) and nargs[1].step is None and \
+                            nargs[1].hi is None and nargs[1].lo is not None and nargs[1].lo.const() == -1:
+                        return t.atom('idx', (nargs[0], t.const(-1)))
+                    return None
+                parts = [t.rewrite(x, last1) for x in parts]
+                return t.atom('call', (t.atom('tuple', tuple(parts)),), extra=('fn:concatenate',))
         if name in ('log', 'log10', 'log2') and len(args) == 1 and not kw:
             return t.log(name, args[0])
         if name in ('exp', 'abs', 'fabs') and len(args) == 1 and not kw:
